@@ -6,6 +6,7 @@ cd /repo || exit 2
 if [ -n "$(git status --porcelain --untracked-files=no)" ]; then echo "/repo not clean"; exit 2; fi
 if ! git apply "$patch" 2>/dev/null; then git apply --3way "$patch" >/dev/null 2>&1 || { echo "PATCH DOES NOT APPLY"; git checkout -- .; exit 3; }; git reset -q; fi
 trap 'git -C /repo checkout -- . ' EXIT
+export RV_EVIDENCE_DIR=/tmp/rv-evidence-seeded
 for p in "$@"; do
   t0=$(date +%s)
   out=$(cd /verif && VERIF_SEED=${VERIF_SEED:-1} bash scripts/check.sh $p $tier 2>&1)
